@@ -288,6 +288,20 @@ def rule_agree(ctx):
         if isinstance(n, ast.If) and any(isinstance(x, ast.Break) for x in n.body):
             for a, op, t, _ in _target_compares(n.test):
                 enc_loop[a] = (op, t)
+    # polarity: none of these comparisons sits under a negation
+    parents = tr.module.parents
+    negated = []
+    for src in [sat[0]] + [n.test for n in walk_local(tr.node) if isinstance(n, ast.If)
+                           and any(isinstance(x, ast.Break) for x in n.body)]:
+        for a, op, t, cmpn in _target_compares(src):
+            cur = cmpn
+            while cur is not src and cur is not None:
+                cur = parents.get(cur)
+                if isinstance(cur, ast.UnaryOp) and isinstance(cur.op, ast.Not):
+                    negated.append((a, C.unparse(cur, 60)))
+                    break
+    for a, txt in negated:
+        enc_loop[a] = ("negated:" + txt, None)
     # expected: stop once size <= target; stop *before* overhead > target; stop at nslices >= target
     want = {"size": "le", "overhead": "gt", "nslices": "ge"}
     for attr, (tname, _) in KINDS.items():
@@ -538,4 +552,509 @@ def rule_intcost(ctx):
     return r
 
 
-RULES = [rule_forbid, rule_filter, rule_agree, rule_apply, rule_model, rule_intcost]
+def rule_arith(ctx):
+    """'The predicted size/flops/slices equal what the tree reports after slicing the returned set': the
+    model is an *independent* incremental re-implementation of the tree's cost definitions.  Its arithmetic
+    is evaluated symbolically (sa/engine/symbolic.py: monomials in the index dimensions) for one abstract
+    contraction (involved I, legs L, size S, flops F) and compared with the definition: slicing an index of
+    dimension d that the contraction involves divides its flops by d, divides its size by d iff the index is
+    on the result, multiplies the number of slices by d; totals move by exactly those differences."""
+    from ..engine.symbolic import Interp, Poly
+
+    r = RuleResult("C07-ARITH", "the cost model's arithmetic is the tree's cost definition", 14)
+    cc = ctx.p.cls(C.SLICER, "ContractionCosts")
+    C.require(cc is not None, "ContractionCosts not found")
+    m = cc.module
+    # --- layout of a model entry: as produced, as indexed, as unpacked
+    fct = cc.methods.get("from_contraction_tree")
+    C.require(fct is not None, "from_contraction_tree not found")
+    layout = None
+    for n in walk_local(fct.node):
+        if isinstance(n, ast.Tuple) and len(n.elts) == 4:
+            kinds = []
+            for e in n.elts:
+                g = [x.func.attr for x in ast.walk(e) if isinstance(x, ast.Call) and isinstance(x.func, ast.Attribute)
+                     and x.func.attr.startswith("get_")]
+                kinds.append(g[0][4:] if g else None)
+            if set(kinds) == {"involved", "legs", "size", "flops"}:
+                layout = kinds
+    C.require(layout is not None, "from_contraction_tree: entry tuple (involved, legs, size, flops) not recognised")
+    k = ctx.key(fct, "C07-ARITH", "layout")
+    idx = {}
+    for nm, kind in (("IDX_INVOLVED", "involved"), ("IDX_LEGS", "legs"), ("IDX_SIZE", "size"), ("IDX_FLOPS", "flops")):
+        v = m.assigns.get(nm)
+        if v and len(v) == 1 and isinstance(v[0], ast.Constant):
+            idx[nm] = (kind, v[0].value)
+    wrong = [f"{nm} = {pos} but the producer puts {kind} at {layout.index(kind)}" for nm, (kind, pos) in idx.items()
+             if layout.index(kind) != pos]
+    if wrong:
+        r.violation(k, fct.loc, "; ".join(wrong))
+    else:
+        C.require(len(idx) == 4, "IDX_* constants not found")
+        r.ok(k, fct.loc, f"entries are {tuple(layout)}; IDX_* constants agree")
+    S, F, d, di = Poly.sym("S"), Poly.sym("F"), Poly.sym("d"), Poly.sym("di")
+    entry = tuple({"involved": ("set", "I", ()), "legs": ("set", "L", ()), "size": S, "flops": F}[kd] for kd in layout)
+
+    def report(key, f, problems, okmsg, node=None):
+        if problems:
+            r.violation(key, C.loc(f, node) if node is not None else f.loc, "; ".join(problems))
+        else:
+            r.ok(key, f.loc, okmsg)
+
+    def eff(effects, kind, target_frag, cond=None, loop_frag=None):
+        out = []
+        for e in effects:
+            if e.kind != kind or target_frag not in e.target:
+                continue
+            if loop_frag is not None and not any(loop_frag in lp for lp in e.loops):
+                continue
+            if cond is not None and not all((c in e.conds) for c in cond):
+                continue
+            out.append(e)
+        return out
+
+    # --- __init__
+    f = cc.methods.get("__init__")
+    C.require(f is not None, "ContractionCosts.__init__ not found")
+    loops = [n for n in f.node.body if isinstance(n, ast.For)]
+    C.require(loops, "ContractionCosts.__init__: loop over the contractions not found")
+    lp = loops[0]
+    cvar = [t.id for t in ast.walk(lp.target) if isinstance(t, ast.Name)][-1]
+    env = {f"{cvar}[IDX_SIZE]": S, f"{cvar}[IDX_FLOPS]": F, "self.size_dict[ix]": d}
+    it = Interp(env=env, sets={})
+    # the inner loop variable's dimension
+    inner = [n for n in ast.walk(lp) if isinstance(n, ast.For) and n is not lp]
+    if inner and isinstance(inner[0].target, ast.Name):
+        it.env0[f"self.size_dict[{inner[0].target.id}]"] = d
+        ivar = inner[0].target.id
+    else:
+        ivar = "ix"
+    effects = it.run(lp.body)
+    probs = []
+    e = eff(effects, "aug", "self._flops")
+    if not (len(e) == 1 and e[0].delta == F and not e[0].conds and len(e[0].loops) == 0):
+        probs.append(f"the per-slice flops total does not accumulate each contraction's flops once "
+                     f"({[(x.op, x.value) for x in e]})")
+    e = eff(effects, "call", "self._sizes.add")
+    if not (len(e) == 1 and e[0].value == (S,) and not e[0].conds and len(e[0].loops) == 0):
+        probs.append("the size multiset does not receive each contraction's size once")
+    report(ctx.key(f, "C07-ARITH", "init-totals"), f, probs, "flops total += F, sizes.add(S) once per contraction", lp)
+    probs = []
+    inv_loop = f"{cvar}[IDX_INVOLVED]"
+    e = eff(effects, "aug", "self._flop_reductions", loop_frag=inv_loop)
+    if not (len(e) == 1 and e[0].delta == F - F.div(d) and not e[0].conds):
+        probs.append(f"the potential flops reduction of an involved index is not F - F/d "
+                     f"(found {[(x.op, x.value, list(x.conds)) for x in e]})")
+    e = eff(effects, "call", "self._where", loop_frag=inv_loop)
+    if not (len(e) == 1 and not e[0].conds and e[0].target.endswith(".add")):
+        probs.append("the contraction is not registered under every index it involves")
+    e = eff(effects, "aug", "self._write_reductions", loop_frag=inv_loop)
+    legs_cond = (f"{ivar} in {cvar}[IDX_LEGS]", True)
+    if not (len(e) == 1 and e[0].delta == S - S.div(d) and legs_cond in e[0].conds
+            and len(e[0].conds) == 1):
+        probs.append(f"the potential size reduction S - S/d is not added exactly for the indices on the result "
+                     f"(found {[(x.op, x.value, list(x.conds)) for x in e]})")
+    report(ctx.key(f, "C07-ARITH", "init-reductions"), f, probs,
+           "reductions: F - F/d for involved indices, S - S/d for indices on the result; registered under every involved index", lp)
+    # starting values and defaults
+    probs = []
+    pre = {}
+    for n in f.node.body:
+        if n is lp:
+            break
+        if isinstance(n, ast.Assign) and isinstance(n.targets[0], ast.Attribute) and dotted(n.targets[0].value) == "self":
+            pre[n.targets[0].attr] = n.value
+    if not (isinstance(pre.get("_flops"), ast.Constant) and pre["_flops"].value == 0):
+        probs.append("the flops total does not start at 0")
+    if "_sizes" not in pre or C.unparse(pre["_sizes"]) != "MaxCounter()":
+        probs.append("the size multiset does not start empty")
+    for a_ in ("_flop_reductions", "_write_reductions"):
+        v = pre.get(a_)
+        zero = isinstance(v, ast.Call) and v.args and ((isinstance(v.args[0], ast.Lambda) and
+                isinstance(v.args[0].body, ast.Constant) and v.args[0].body.value == 0) or C.unparse(v.args[0]) == "int")
+        if not zero:
+            probs.append(f"{a_} does not start from zero for every index")
+    dflt = {a.arg: dv for a, dv in zip(f.node.args.args[-len(f.node.args.defaults):], f.node.args.defaults)}
+    if not (isinstance(dflt.get("nslices"), ast.Constant) and dflt["nslices"].value == 1):
+        probs.append("an unsliced model does not start with nslices = 1")
+    base = [n for n in f.node.body if isinstance(n, ast.If) and "original_flops" in C.unparse(n.test)]
+    if base:
+        t = base[0].test
+        good = isinstance(t, ast.Compare) and isinstance(t.ops[0], ast.Is) and C.unparse(t.comparators[0]) == "None" \
+            and any(isinstance(x, ast.Assign) and C.unparse(x.value) == "self._flops" for x in base[0].body)
+        if not good:
+            probs.append("the overhead baseline does not default to the model's own flops exactly when none is given")
+    report(ctx.key(f, "C07-ARITH", "init-start"), f, probs, "totals start at zero, nslices defaults to 1, baseline defaults to own flops")
+    # the model ranges over the intermediates only (as the tree's totals do)
+    gens = [n for n in walk_local(fct.node) if isinstance(n, ast.GeneratorExp)]
+    key = ctx.key(fct, "C07-ARITH", "non-leaves")
+    flt = [c for g in gens for gg in g.generators for c in gg.ifs]
+    good = False
+    for c in flt:
+        if isinstance(c, ast.Compare) and isinstance(c.left, ast.Call) and dotted(c.left.func) == "len" and \
+                isinstance(c.comparators[0], ast.Constant):
+            op, v = c.ops[0], c.comparators[0].value
+            good = (isinstance(op, ast.NotEq) and v == 1) or (isinstance(op, ast.Gt) and v == 1) or \
+                (isinstance(op, ast.GtE) and v == 2)
+    src_iter = [C.unparse(gg.iter) for g in gens for gg in g.generators]
+    if good and any(x.endswith(".info") or x.endswith(".children") for x in src_iter):
+        r.ok(key, fct.loc, "one entry per intermediate of the tree (leaves filtered out), as in the tree's totals")
+    elif any(x.endswith(".children") for x in src_iter) and not flt:
+        r.ok(key, fct.loc, "one entry per intermediate of the tree")
+    else:
+        r.violation(key, fct.loc, f"the model's entries are not exactly the tree's intermediates (filter {[C.unparse(c) for c in flt]} "
+                    f"over {src_iter}): the tree's flops/size totals range over contractions, not over input tensors")
+    # --- figures
+    for nm, want, desc in (("total_flops", Poly.sym("n") * Poly.sym("f"), "nslices * flops"),
+                           ("overhead", Poly.sym("T").div(Poly.sym("O")), "total_flops / original_flops")):
+        pf = cc.methods.get(nm)
+        C.require(pf is not None, f"ContractionCosts.{nm} not found")
+        env = {"self.nslices": Poly.sym("n"), "self.flops": Poly.sym("f"), "self._flops": Poly.sym("f"),
+               "self.total_flops": Poly.sym("T"), "self.original_flops": Poly.sym("O")}
+        if nm == "overhead":
+            env["self.nslices * self.flops"] = Poly.sym("T")
+        rets = eff(Interp(env=env).run(pf.node.body), "return", "")
+        key = ctx.key(pf, "C07-ARITH", "figure")
+        if len(rets) == 1 and rets[0].value == want:
+            r.ok(key, pf.loc, f"{nm} = {desc}")
+        else:
+            r.violation(key, pf.loc, f"{nm} is not {desc} (found `{C.unparse(rets[0].expr) if rets else '?'}`)")
+    for nm, want in (("size", "self._sizes.max()"), ("flops", "self._flops")):
+        pf = cc.methods.get(nm)
+        C.require(pf is not None, f"ContractionCosts.{nm} not found")
+        rets = [n for n in walk_local(pf.node) if isinstance(n, ast.Return)]
+        key = ctx.key(pf, "C07-ARITH", "figure")
+        if len(rets) == 1 and C.unparse(rets[0].value) == want:
+            r.ok(key, pf.loc, f"{nm} = {want}")
+        else:
+            r.violation(key, pf.loc, f"{nm} is not `{want}`")
+    # --- remove
+    f = cc.methods.get("remove")
+    C.require(f is not None, "ContractionCosts.remove not found")
+    cost = None
+    for n in f.node.body:
+        if isinstance(n, ast.Assign) and isinstance(n.targets[0], ast.Name) and isinstance(n.value, ast.IfExp):
+            cost = n.targets[0].id
+    C.require(cost is not None, "ContractionCosts.remove: working copy not found")
+    loops = [n for n in f.node.body if isinstance(n, ast.For)]
+    C.require(len(loops) == 1, "ContractionCosts.remove: expected one loop over the affected contractions")
+    lp = loops[0]
+    ivar = lp.target.id if isinstance(lp.target, ast.Name) else "i"
+    env = {f"{cost}.size_dict[ix]": d}
+    it = Interp(env=env, tuples={f"{cost}.contractions[{ivar}]": entry})
+
+    def on_loop(st, env_, sets_):
+        if isinstance(st, ast.For) and isinstance(st.target, ast.Name) and st is not lp:
+            env_[f"{cost}.size_dict[{st.target.id}]"] = di
+    it.on_loop = on_loop
+    effects = it.run(f.node.body)
+    inloop = f"{cost}._where"
+    probs = []
+    e = [x for x in eff(effects, "aug", f"{cost}.nslices") if not x.loops]
+    if not (len(e) == 1 and e[0].op == "Mult" and e[0].value == d and not e[0].conds):
+        probs.append(f"the number of slices is not multiplied by the dimension of the removed index exactly once "
+                     f"({[(x.op, x.value) for x in e]})")
+    e = eff(effects, "call", f"{cost}._where.pop")
+    strict = [n for n in walk_local(f.node) if isinstance(n, ast.Call) and C.unparse(n.func) == f"{cost}._where.pop"]
+    if not strict or C.unparse(lp.iter) != C.unparse(strict[0]):
+        probs.append("the loop does not run over the contractions registered under the removed index")
+    report(ctx.key(f, "C07-ARITH", "remove-slices"), f, probs, "nslices *= d, once; loop over the contractions that involve the index", lp)
+    in_legs, not_in_legs = ("ix in old_legs", True), ("ix in old_legs", False)
+    # names of the unpacked legs may differ: find the membership test actually used
+    tests = {c for x in effects for c in x.conds if c[0].startswith("ix in ")}
+    if tests:
+        tname = sorted(tests)[0][0]
+        in_legs, not_in_legs = (tname, True), (tname, False)
+    probs = []
+    e = eff(effects, "aug", f"{cost}._flops", loop_frag=inloop)
+    if not (e and all(x.delta == F.div(d) - F for x in e) and
+            len({x.conds for x in e}) == len(e)):
+        probs.append(f"the flops total does not move by F/d - F per affected contraction "
+                     f"({[(x.op, x.value) for x in e[:2]]})")
+    for cond, cname, want_size, want_legs in ((in_legs, "on the result", S.div(d), ("set", "L", ("ix",))),
+                                              (not_in_legs, "summed", S, ("set", "L", ()))):
+        st = [x for x in eff(effects, "store", f"{cost}.contractions[{ivar}]") if cond in x.conds]
+        if len(st) != 1 or not isinstance(st[0].value, tuple) or len(st[0].value) != 4:
+            probs.append(f"index {cname}: the updated entry is not stored once as a 4-tuple")
+            continue
+        got = dict(zip(layout, st[0].value))
+        if got["involved"] != ("set", "I", ("ix",)):
+            probs.append(f"index {cname}: the stored involved set is not the old one minus the index ({got['involved']})")
+        if got["legs"] != want_legs:
+            probs.append(f"index {cname}: the stored legs are {got['legs']}, expected {want_legs}")
+        if got["size"] != want_size:
+            probs.append(f"index {cname}: the stored size is {got['size']}, expected {want_size}")
+        if got["flops"] != F.div(d):
+            probs.append(f"index {cname}: the stored flops are {got['flops']}, expected F/d")
+    report(ctx.key(f, "C07-ARITH", "remove-entry"), f, probs,
+           "flops total += F/d - F; entry becomes (I - ix, L - ix, S/d, F/d) if the index is on the result, (I - ix, L, S, F/d) otherwise", lp)
+    probs = []
+    dis = eff(effects, "call", f"{cost}._sizes.discard", loop_frag=inloop)
+    add = eff(effects, "call", f"{cost}._sizes.add", loop_frag=inloop)
+    if not (len(dis) == 1 and in_legs in dis[0].conds and dis[0].value == (S,)):
+        probs.append("the old size is not struck off the size multiset exactly when the index is on the result")
+    if not (len(add) == 1 and in_legs in add[0].conds and add[0].value == (S.div(d),)):
+        probs.append("S/d is not entered into the size multiset exactly when the index is on the result")
+    report(ctx.key(f, "C07-ARITH", "remove-sizes"), f, probs, "sizes: discard(S), add(S/d) iff the index is on the result", lp)
+    probs = []
+    fr = eff(effects, "aug", f"{cost}._flop_reductions", loop_frag="set:('I', ('ix',))")
+    want = (F.div(d) - F.div(d).div(di)) - (F - F.div(di))
+    if not (fr and all(x.delta == want for x in fr)):
+        got = [(x.op, x.value, x.loops[-1]) for x in eff(effects, "aug", f"{cost}._flop_reductions")][:2]
+        probs.append(f"the potential flops reduction of the other involved indices does not move by "
+                     f"(F/d - F/(d di)) - (F - F/di) (found {got})")
+    wr = eff(effects, "aug", f"{cost}._write_reductions", loop_frag="set:('L', ('ix',))")
+    want_w = (S.div(d) - S.div(d).div(di)) - (S - S.div(di))
+    if not (wr and all(x.delta == want_w and in_legs in x.conds for x in wr)):
+        got = [(x.op, x.value, x.loops[-1], list(x.conds)) for x in eff(effects, "aug", f"{cost}._write_reductions")][:2]
+        probs.append(f"the potential size reduction of the other result indices does not move by "
+                     f"(S/d - S/(d di)) - (S - S/di), only when the removed index is on the result (found {got})")
+    report(ctx.key(f, "C07-ARITH", "remove-reductions"), f, probs,
+           "reductions of the remaining indices move by the difference of new and old potential", lp)
+    probs = []
+    dels = {x.target for x in effects if x.kind == "del" and not x.loops}
+    for t in (f"{cost}.size_dict[ix]", f"{cost}._flop_reductions[ix]", f"{cost}._write_reductions[ix]"):
+        if t not in dels:
+            probs.append(f"`del {t}` missing: the removed index stays a candidate")
+    report(ctx.key(f, "C07-ARITH", "remove-forget"), f, probs, "the removed index leaves size_dict and both reduction tables")
+    return r
+
+
+def rule_modelcopy(ctx):
+    """The finder derives every candidate from a cached parent with `parent.remove(ix)` (not in place): the
+    parent must come out unchanged, so `remove` works on `self` only under `inplace`, and a copy owns
+    every container `remove` edits."""
+    r = RuleResult("C07-MODELCOPY", "removing an index from a cached model leaves the cached model intact", 3)
+    cc = ctx.p.cls(C.SLICER, "ContractionCosts")
+    rm, ssf, cp = cc.methods.get("remove"), cc.methods.get("_set_state_from"), cc.methods.get("copy")
+    C.require(rm is not None and ssf is not None and cp is not None, "ContractionCosts.remove/_set_state_from/copy not found")
+    key = ctx.key(rm, "C07-MODELCOPY", "working-copy")
+    ife = [n for n in rm.node.body if isinstance(n, ast.Assign) and isinstance(n.value, ast.IfExp)]
+    C.require(ife, "ContractionCosts.remove: working copy not found")
+    v = ife[0].value
+    tname = dotted(v.test)
+    if tname == "inplace" and dotted(v.body) == "self" and C.unparse(v.orelse) == "self.copy()":
+        r.ok(key, C.loc(rm, ife[0]), "self only under `inplace`, otherwise a copy")
+    elif isinstance(v.test, ast.UnaryOp) and isinstance(v.test.op, ast.Not) and dotted(v.test.operand) == "inplace" and \
+            dotted(v.orelse) == "self" and C.unparse(v.body) == "self.copy()":
+        r.ok(key, C.loc(rm, ife[0]), "self only under `inplace`, otherwise a copy")
+    else:
+        r.violation(key, C.loc(rm, ife[0]), f"`{C.unparse(v)}`: with inplace=False the cached parent model itself is edited "
+                    f"(every entry of the finder's cache derived from it afterwards starts from a wrong state)")
+    # attributes edited in place by remove
+    cost = ife[0].targets[0].id
+    edited = set()
+    for n in walk_local(rm.node):
+        t = None
+        if isinstance(n, (ast.Assign, ast.AugAssign, ast.Delete)):
+            for tt in (n.targets if not isinstance(n, ast.AugAssign) else [n.target]):
+                if isinstance(tt, ast.Subscript) and isinstance(tt.value, ast.Attribute) and dotted(tt.value.value) == cost:
+                    edited.add(tt.value.attr)
+        elif isinstance(n, ast.Call) and isinstance(n.func, ast.Attribute) and isinstance(n.func.value, ast.Attribute) \
+                and dotted(n.func.value.value) == cost and n.func.attr in ("pop", "add", "discard", "remove", "append", "update"):
+            edited.add(n.func.value.attr)
+    slots = C.str_consts(cc.class_assigns.get("__slots__")) if "__slots__" in cc.class_assigns else None
+    C.require(slots, "ContractionCosts.__slots__ not found")
+    transfer = {}
+    for n in ssf.node.body:
+        if isinstance(n, ast.Assign) and isinstance(n.targets[0], ast.Attribute) and dotted(n.targets[0].value) == "self":
+            transfer[n.targets[0].attr] = n.value
+    key = ctx.key(ssf, "C07-MODELCOPY", "transfer")
+    probs = []
+    for a_ in slots:
+        v = transfer.get(a_)
+        if v is None:
+            probs.append(f"`{a_}` is not transferred: a copy lacks it")
+            continue
+        src_ok = a_ in C.unparse(v) and "other." in C.unparse(v)
+        if not src_ok:
+            probs.append(f"`{a_}` is transferred from `{C.unparse(v, 40)}`")
+        if a_ in edited and not (isinstance(v, ast.Call) and isinstance(v.func, ast.Attribute) and v.func.attr in ("copy",)
+                                 or (isinstance(v, ast.Call) and dotted(v.func) in ("dict", "list", "set", "copy.copy", "copy.deepcopy"))):
+            probs.append(f"`{a_}` is edited in place by remove() but shared with the copy (`{C.unparse(v, 40)}`)")
+    if probs:
+        r.violation(key, ssf.loc, "; ".join(probs))
+    else:
+        r.ok(key, ssf.loc, f"all {len(slots)} slots transferred; {sorted(edited)} (edited in place by remove) by copy")
+    key = ctx.key(cp, "C07-MODELCOPY", "copy")
+    calls = [n for n in walk_local(cp.node) if isinstance(n, ast.Call) and isinstance(n.func, ast.Attribute)
+             and n.func.attr == "_set_state_from" and n.args and dotted(n.args[0]) == "self"]
+    rets = [n for n in walk_local(cp.node) if isinstance(n, ast.Return)]
+    if calls and rets and dotted(rets[0].value) == dotted(calls[0].func.value):
+        r.ok(key, cp.loc, "a new object receives the state and is returned")
+    else:
+        r.violation(key, cp.loc, "copy() does not return a new object that received this object's state")
+    return r
+
+
+def rule_modes(ctx):
+    """`allow_outer` has three values; which indices are forbidden under each is a small decision table in
+    `SliceFinder.__init__`: False -> the output indices, "only" -> everything *except* the output indices,
+    True -> nothing.  The table is read off the branch structure."""
+    r = RuleResult("C07-MODES", "the forbidden set implements the three allow_outer modes", 3)
+    sf = ctx.p.cls(C.SLICER, "SliceFinder")
+    f = sf.methods["__init__"]
+    stores = [n for n in walk_local(f.node) if isinstance(n, ast.Assign) and
+              any(C.unparse(t) == "self.forbidden" for t in n.targets)]
+    C.require(stores, "SliceFinder.__init__: stores to self.forbidden not found")
+    base, invert, empty = [], [], []
+    for n in stores:
+        v = n.value
+        txt = C.unparse(v)
+        if isinstance(v, ast.BinOp) and isinstance(v.op, ast.Sub) and "self.forbidden" in C.unparse(v.right):
+            invert.append(n)
+        elif isinstance(v, ast.BinOp):
+            invert.append(n)
+        elif txt in ("()", "set()", "frozenset()", "[]", "{}"):
+            empty.append(n)
+        elif "output" in txt:
+            base.append(n)
+        else:
+            base.append(n)
+    # (1) base: every way of constructing the finder starts from the output indices
+    key = ctx.key(f, "C07-MODES", "disallowed")
+    fl = ctx.flow(f)
+    bad = [n for n in base if "output" not in C.unparse(n.value)]
+    base_nodes = [fl.cfg.containing(n, f.module.parents).id for n in base if n not in bad]
+    later = (invert + empty)
+    ok_paths = bool(base_nodes) and all(
+        fl.cfg.all_paths_pass(fl.cfg.entry.id, base_nodes, dst=fl.cfg.containing(x, f.module.parents).id) for x in later) \
+        and fl.cfg.all_paths_pass(fl.cfg.entry.id, base_nodes)
+    if bad:
+        r.violation(key, C.loc(f, bad[0]), f"`{C.unparse(bad[0])}`: with outer slicing disallowed the forbidden set is "
+                    f"not the set of output indices")
+    elif not ok_paths:
+        r.violation(key, f.loc, "on some path through the constructor the forbidden set is never initialised from "
+                    "the output indices (allow_outer=False then forbids nothing, or the attribute is missing)")
+    else:
+        r.ok(key, C.loc(f, base[0]), "every construction path starts from forbidden = set(output indices)")
+    # (2) "only": complement with respect to all indices of the model, under == "only"
+    key = ctx.key(f, "C07-MODES", "only")
+    if len(invert) != 1:
+        r.violation(key, f.loc, f"expected one store inverting the forbidden set for allow_outer='only', found {len(invert)}")
+    else:
+        n = invert[0]
+        v = n.value
+        g = C.enclosing_ifs(f, n)
+        t = g[0][0].test if g else None
+        is_only = g and g[0][1] and isinstance(t, ast.Compare) and len(t.ops) == 1 and isinstance(t.ops[0], ast.Eq) and \
+            C.unparse(t.left) == "allow_outer" and isinstance(t.comparators[0], ast.Constant) and t.comparators[0].value == "only"
+        form = isinstance(v.op, ast.Sub) and "size_dict" in C.unparse(v.left) and C.unparse(v.right) == "self.forbidden"
+        if is_only and form:
+            r.ok(key, C.loc(f, n), "under allow_outer == 'only': all indices minus the output indices")
+        else:
+            r.violation(key, C.loc(f, n), f"`{C.unparse(n)}` under `{C.unparse(t) if t is not None else 'no test'}`: with "
+                        f"allow_outer='only' the forbidden set must be (all indices) - (output indices), and only then")
+    # (3) True: nothing forbidden, under plain truthiness of the option (after the 'only' test)
+    key = ctx.key(f, "C07-MODES", "allowed")
+    if len(empty) != 1:
+        r.violation(key, f.loc, f"expected one store emptying the forbidden set for allow_outer=True, found {len(empty)}")
+    else:
+        n = empty[0]
+        g = C.enclosing_ifs(f, n)
+        t = g[0][0].test if g else None
+        pos = g and g[0][1] and (C.unparse(t) in ("allow_outer", "allow_outer is True", "allow_outer == True"))
+        if pos:
+            r.ok(key, C.loc(f, n), "nothing forbidden exactly when allow_outer is true (and not 'only')")
+        else:
+            r.violation(key, C.loc(f, n), f"the forbidden set is emptied under `{C.unparse(t) if t is not None else 'no test'}`"
+                        f"{'' if (g and g[0][1]) else ' (else branch)'}: output indices become sliceable although outer "
+                        f"slicing was disallowed (or stay forbidden although it was allowed)")
+    return r
+
+
+def rule_specified(ctx):
+    """A target counts as 'supplied' iff it is not None after the call's value replaced the finder's default;
+    every test against a target is switched by the flag of *that* target."""
+    r = RuleResult("C07-SPECIFIED", "which targets are supplied is decided the same way everywhere", 8)
+    sf = ctx.p.cls(C.SLICER, "SliceFinder")
+    targets = [t for t, _ in KINDS.values()]
+    md = sf.methods.get("_maybe_default")
+    C.require(md is not None, "SliceFinder._maybe_default not found")
+    key = ctx.key(md, "C07-SPECIFIED", "default")
+    ifs = [n for n in md.node.body if isinstance(n, ast.If)]
+    good = False
+    if ifs:
+        t = ifs[0].test
+        pname = md.node.args.args[2].arg if len(md.node.args.args) > 2 else None
+        if isinstance(t, ast.Compare) and isinstance(t.ops[0], ast.Is) and C.unparse(t.comparators[0]) == "None" \
+                and dotted(t.left) == pname and any(isinstance(x, ast.Return) and "getattr(self" in C.unparse(x) for x in ifs[0].body):
+            rest = [x for x in md.node.body if isinstance(x, ast.Return)]
+            good = bool(rest) and dotted(rest[0].value) == pname
+    if good:
+        r.ok(key, md.loc, "the finder's own setting is used exactly when the call passes None")
+    else:
+        r.violation(key, md.loc, "_maybe_default does not return the finder's setting iff the given value is None: a target "
+                    "supplied per call is ignored, or the finder's targets are")
+    init = sf.methods["__init__"]
+    key = ctx.key(init, "C07-SPECIFIED", "stored")
+    miss = []
+    for t in targets:
+        st = [n for n in walk_local(init.node) if isinstance(n, ast.Assign) and C.unparse(n.targets[0]) == f"self.{t}"]
+        if not st or C.unparse(st[0].value) != t:
+            miss.append(t)
+    if miss:
+        r.violation(key, init.loc, f"the constructor does not store {miss} under its own name")
+    else:
+        r.ok(key, init.loc, "the constructor stores each target under its own name")
+    for fn in ("best", "trial"):
+        f = sf.methods.get(fn)
+        C.require(f is not None, f"SliceFinder.{fn} not found")
+        la = ctx.r.local_assignments(f)
+        # resolution of the effective targets
+        key = ctx.key(f, "C07-SPECIFIED", "resolve")
+        bad = []
+        for t in targets:
+            vs = [v for v in la.get(t, []) if isinstance(v, ast.Call) and C.call_name(v) == "_maybe_default"]
+            if len(vs) != 1 or len(vs[0].args) != 2 or not isinstance(vs[0].args[0], ast.Constant) or \
+                    vs[0].args[0].value != t or dotted(vs[0].args[1]) != t:
+                bad.append(t)
+        if bad:
+            r.violation(key, f.loc, f"{bad}: the effective target is not `_maybe_default('<same name>', <same parameter>)`")
+        else:
+            r.ok(key, f.loc, "each effective target = the call's value, else the finder's setting of the same name")
+        # flags
+        flags = {}
+        for nm, vs in la.items():
+            for v in vs:
+                if isinstance(v, ast.Compare) and len(v.ops) == 1 and dotted(v.left) in targets and \
+                        C.unparse(v.comparators[0]) == "None":
+                    flags[nm] = (dotted(v.left), type(v.ops[0]).__name__)
+        key = ctx.key(f, "C07-SPECIFIED", "flags")
+        wrong = [f"{nm} = {t} {op} None" for nm, (t, op) in flags.items() if op not in ("IsNot", "NotEq")]
+        if wrong or {t for t, _ in flags.values()} != set(targets):
+            r.violation(key, f.loc, f"'supplied' flags {wrong or sorted(flags)}: a target must count as supplied exactly when "
+                        f"it is not None")
+            continue
+        r.ok(key, f.loc, f"{sorted(flags)} = `<target> is not None`")
+        # every comparison with a target is switched by the flag of the same target
+        key = ctx.key(f, "C07-SPECIFIED", "switch")
+        probs = []
+        parents = f.module.parents
+        flag_of = {t: nm for nm, (t, _) in flags.items()}
+        ncmp = 0
+        for attr, op, tname, cmpn in _target_compares(f.node):
+            if tname not in flag_of:
+                continue
+            ncmp += 1
+            want = flag_of[tname]
+            par = parents.get(cmpn)
+            ok_ = False
+            if isinstance(par, ast.BoolOp):
+                others = [x for x in par.values if x is not cmpn]
+                if isinstance(par.op, ast.And):
+                    ok_ = any(isinstance(x, ast.Name) and x.id == want for x in others)
+                else:
+                    ok_ = any(isinstance(x, ast.UnaryOp) and isinstance(x.op, ast.Not) and
+                              isinstance(x.operand, ast.Name) and x.operand.id == want for x in others)
+            if not ok_:
+                probs.append(f"`{C.unparse(cmpn)}` is not switched by `{want}` (found `{C.unparse(par, 70) if par is not None else ''}`)")
+        if probs or ncmp < 3:
+            r.violation(key, f.loc, "; ".join(probs) or "fewer than three target tests found")
+        else:
+            r.ok(key, f.loc, f"all {ncmp} tests against a target are `flag and test` / `not flag or test` with the flag of that target")
+    return r
+
+
+RULES = [rule_forbid, rule_filter, rule_agree, rule_apply, rule_model, rule_intcost, rule_arith, rule_modelcopy,
+         rule_modes, rule_specified]
